@@ -9,6 +9,7 @@ import (
 	"go/types"
 	"math"
 	"reflect"
+	"regexp"
 	"strconv"
 	"strings"
 	"unicode/utf8"
@@ -176,8 +177,27 @@ func constOf(v interface{}) constant.Value {
 	return constant.MakeUnknown()
 }
 
+var gShapeRe = regexp.MustCompile(`^-?[0-9]+(\.[0-9]+)?(e[+-][0-9][0-9]+)?$`)
+
 func oracleC11(cx *CheckCtx, runs []*CaseRun) []Finding {
 	var fs []Finding
+	// validate the assumption the theorems make about the delegated strconv.FormatFloat:
+	// every text handed to the model for a finite value has G-shape
+	nG := 0
+	for _, cr := range runs {
+		if l, ok := litOf(cr.Case); ok {
+			switch l.Type {
+			case "f64", "f32", "c128", "c64":
+				for _, t := range l.V {
+					nG++
+					if !gShapeRe.MatchString(t) {
+						fs = append(fs, Finding{Property: "C11", Shape: "assumption-gshape", What: fmt.Sprintf("strconv.FormatFloat produced %q, which is outside the G-shape the theorems assume", t), Case: cr.Case.Text()})
+					}
+				}
+			}
+		}
+	}
+	cx.Extra["gshape_texts_validated"] = nG
 	pkg := types.NewPackage("p", "p")
 	fset := token.NewFileSet()
 	for _, cr := range runs {
